@@ -20,6 +20,7 @@ import gen_asn1
 import c11
 import c11c12_gen as G
 import c11c12_oracle as O
+import c11c12_coq
 from common import C, to_coq
 from gen_asn1 import all_members
 
@@ -264,14 +265,20 @@ class Batch(object):
         self.rt = gen_asn1.make_resolver(em)
         self.cases = []      # (name, value, label, {codec: obs})
 
-    def coq(self, i):
-        env = gen_asn1.coq_env(self.em)
+    def coq_chunks(self, chunk=40):
+        return range(0, len(self.cases), chunk)
+
+    def coq(self, i, chunk=40):
+        env = c11c12_coq.cq(gen_asn1.coq_env(self.em))
         tys = dict(self.em['types'])
-        cs = []
-        for n, v, _, obs in self.cases:
-            cs.append(((n, coq_val(self.rt, tys[n], v)), [CODECS.index(c) for c in obs]))
-        return ('Definition env%d : env := %s.\nDefinition cases%d : list (string * value * list Z) := %s.\n'
-                'Eval vm_compute in map (run_first Repaired env%d) cases%d.\n' % (i, to_coq(env), i, to_coq(cs), i, i))
+        out = []
+        for j in range(0, len(self.cases), chunk):
+            cs = [((n, coq_val(self.rt, tys[n], v)), [CODECS.index(c) for c in obs])
+                  for n, v, _, obs in self.cases[j:j + chunk]]
+            k = '%d_%d' % (i, j)
+            out.append('Definition env%s : env := %s.\nDefinition cases%s : list (string * value * list Z) := %s.\n'
+                       'Eval vm_compute in map (run_first Repaired env%s) cases%s.\n' % (k, env, k, c11c12_coq.cq(cs), k, k))
+        return out
 
 
 def known_recursive_tc(kind, crossed, got, tc_expected):
@@ -339,6 +346,12 @@ def run_module(ctx, em, text, g, given_values, budget, batches, state):
             b.cases.append((name, bad, label, obs))
         if len(state['samples']) < 60 and okc:
             state['samples'].append((text, rng.choice(okc), name, bad))
+    cap = state.get('model_cap', 10 ** 9)
+    if len(b.cases) > cap:
+        keep = b.cases[:1]
+        rest = b.cases[1:]
+        rng.shuffle(rest)
+        b.cases = keep + rest[:cap - 1]
     batches.append(b)
 
 
@@ -353,10 +366,10 @@ def modelled_value(v):
 
 
 def corr(ctx, batches):
-    body = 'Open Scope string_scope.\n' + ''.join(b.coq(i) for i, b in enumerate(batches))
-    res = ctx.coq_eval('corr', ['Base.Prelude', 'Syntax.Asn1', 'Check.Location', 'Check.Skeleton', 'Check.Run'], body,
-                       timeout=1500)
-    assert len(res) == len(batches), (len(res), len(batches))
+    res = c11c12_coq.eval_batches(ctx, 'corr', ['Base.Prelude', 'Syntax.Asn1', 'Check.Location', 'Check.Skeleton', 'Check.Run'],
+                                  [t for i, b in enumerate(batches) for t in b.coq(i)])
+    it = iter(res)
+    res = [[x for _ in b.coq_chunks() for x in next(it)] for b in batches]
     agree = 0
     for b, rs in zip(batches, res):
         assert len(rs) == len(b.cases)
@@ -426,6 +439,7 @@ def corr_location(ctx, samples):
     with LocationRecorder() as rec:
         for text_, codec, op, name, arg in runs:
             spec = lib.compile_string(text_, codec)
+            rec.traces.clear()
             try:
                 if op == 'decode':
                     spec.decode(name, bytes.fromhex(arg))
@@ -463,6 +477,31 @@ def replay_findings(ctx, findings):
             print('known finding %s no longer reproduces' % f['id'])
 
 
+WITNESS_SPEC = ('M DEFINITIONS AUTOMATIC TAGS ::= BEGIN\n'
+                'R ::= SEQUENCE { v INTEGER (0..3), next R OPTIONAL }\n'
+                'G ::= SEQUENCE { e ENUMERATED {a, b}, ..., x ENUMERATED {c, d} OPTIONAL, y INTEGER OPTIONAL }\n'
+                'END\n')
+# the witnesses of Props/C12.v C12_orig_*_refuted, with what the repaired model (and the property) say
+WITNESSES = [
+    ('recursive-path-constraint', 'R', {'v': 0, 'next': {'v': 0, 'next': {'v': 9}}}, ('constraints', 'R.next.next.v'), CODECS),
+    ('recursive-path-missing', 'R', {'v': 0, 'next': {'v': 0, 'next': {}}}, ('encode', 'R.next.next'), CODECS),
+    ('addition-enum-swallowed', 'G', {'e': 'a', 'x': 'zz', 'y': 5}, ('encode', 'G.x'), CODECS),
+    ('enum-keyerror', 'G', {'e': 'zz'}, ('encode', 'G.e'), CODECS),
+]
+
+
+def replay_witnesses(ctx):
+    for wid, name, v, exp, codecs in WITNESSES:
+        for c in codecs:
+            got = observe(lib.compile_string(WITNESS_SPEC, c), name, v)
+            ctx.evaluations += 1
+            if got != exp:
+                c11.report(ctx, ('witness', wid),
+                           'witness of Props/C12.v (%s) reproduces on this tree: %s gives %r, the property (and the '
+                           'repaired model) require %r' % (wid, c, got, exp),
+                           dict(kind='witness', spec=WITNESS_SPEC, codec=c, type=name, value=repr(v), expected=list(exp)))
+
+
 def replay(ctx):
     doc = json.load(open(ctx.replay))
     r = doc['replay']
@@ -482,7 +521,8 @@ def run(ctx):
     ok = ctx.coq_props()
     ctx.log('obligations checked')
     replay_findings(ctx, common.load_findings('C12'))
-    state = {'tc_recursive': 0, 'samples': []}
+    replay_witnesses(ctx)
+    state = {'tc_recursive': 0, 'samples': [], 'model_cap': 40 if ctx.quick else 400}
     batches = []
     mod, values = fixed_module()
     em = G.effective(mod)
@@ -494,12 +534,12 @@ def run(ctx):
     g = gen_asn1.Gen(ctx.rng, gen_asn1.Opts())
     g.types = em['types']
     run_module(ctx, em, G.render_module(mod), g, values, 150, batches, state)
-    nmod = 12 if ctx.quick else 140
+    nmod = 10 if ctx.quick else 140
     for i in range(nmod):
         opts = gen_asn1.Opts(max_depth=3, n_types=5, recursion=True,
                              str_kinds=list(gen_asn1.KM_KINDS) + ['UTF8String', 'BMPString'])
         mod, em, text, g = G.generate(ctx.rng, opts)
-        run_module(ctx, em, text, g, None, 60 if ctx.quick else 120, batches, state)
+        run_module(ctx, em, text, g, None, 50 if ctx.quick else 120, batches, state)
     ctx.log('property test done, %d evaluations' % ctx.evaluations)
     corr(ctx, batches)
     corr_location(ctx, state['samples'])
